@@ -301,6 +301,34 @@ func systematicPrograms(fn func(p *gen.Program, src string)) int {
 	return n
 }
 
+// reservedSources returns programs in which every reserved word stands where
+// it is an ordinary word and the printer has to keep it from being read as
+// the reserved word: as a command name behind redirections (first, second
+// command of a list, inside a clause), and as the first pattern of the
+// first, second and third item of a case command (one line and several).
+func reservedSources() []string {
+	var out []string
+	for _, w := range []string{"!", "{", "}", "case", "do", "done", "elif", "else", "esac", "fi", "for", "if", "in", "then", "until", "while"} {
+		out = append(out,
+			">out "+w+" arg\n",
+			"2>&1 <in "+w+"\n",
+			"a; >f "+w+" b c\n",
+			"if true; then 2>/dev/null "+w+"; fi\n",
+			"{ a; >>f "+w+" x; }\n",
+			"a | >f "+w+" | b\n",
+		)
+		if w != "!" && w != "{" && w != "}" {
+			out = append(out,
+				"case $x in (a) echo a ;; ("+w+") echo b ;; esac\n",
+				"case x in a) b;; c) d;; ("+w+"|e) f;; esac\n",
+				"case x in\n("+w+") a;;\nb) c;;\n("+w+") d;;\nesac\n",
+				"case x in ("+w+") ;; ("+w+") ;; esac\n",
+			)
+		}
+	}
+	return out
+}
+
 // deepSources returns multi-line programs nested deeper than any fixed
 // indentation table would reach (19 levels).
 func deepSources() []string {
@@ -384,6 +412,15 @@ func TestC05(t *testing.T) {
 			}
 			st.Class("deeply_nested_program")
 		}
+	}
+	for ri, src := range reservedSources() {
+		if ri%nsh != sh {
+			continue
+		}
+		for cfg := 0; cfg < 256; cfg += 3 {
+			run(t, &gen.Program{Feat: map[string]int{"reserved_as_word": 1}}, src, (cfg+ri)%256|(cfg%7)<<8|(cfg%8)<<11, false)
+		}
+		st.Class("reserved_word_as_ordinary_word")
 	}
 	st.Note("systematic: %d programs (outer construct x slot x inner construct, single-line / multi-line / here-document variants) x the complete space of 256 printer configurations", n)
 
@@ -469,6 +506,16 @@ func TestC18(t *testing.T) {
 			st.Class("deeply_nested_program")
 		}
 	}
+	for ri, src := range reservedSources() {
+		if ri%nsh != sh {
+			continue
+		}
+		for cfg := 0; cfg < 256; cfg += 5 {
+			run(t, &gen.Program{Feat: map[string]int{"reserved_as_word": 1}}, src, (cfg+ri)%256|(cfg%7)<<8|(cfg%8)<<11, false)
+		}
+		st.Class("reserved_word_as_ordinary_word")
+	}
+	st.Note("every reserved word as a command name behind redirections (6 places) and as the first pattern of the first, second and third case item (one line and several), under every fifth configuration")
 
 	cnt := 8000
 	if thorough() {
